@@ -23,6 +23,30 @@ reg("C20", "exploration",
     "Trusts data/constants_ref.json (CODATA 2018 / IAU 2015) and float arithmetic; tolerance per "
     "constant is the precision the library's literal claims.", "DESIGN.md 3/C20")
 
+reg("C05", "exploration",
+    "bounded-exhaustive enumeration of expression trees (<=2 / <=3 internal nodes) against a "
+    "reference evaluator",
+    "Every tree with at most n internal nodes over a 29-leaf / 10-operator alphabet is built with "
+    "the ordinary sympy constructors and handed to Quantity(); verdict (accept/refuse), SI value "
+    "and dimension are compared with an independent reference walker over the tree as received. "
+    "The collector is a structural recursion, so small trees reach every branch pair.",
+    "Reference unit table vp/values.py and exponent-vector calculus vp/dims.py; small-scope "
+    "hypothesis beyond the bound; cases the property leaves open (complex infinity, non-real "
+    "powers of dimensional bases) only checked for absence of unexpected exception types.",
+    "DESIGN.md 3/C05")
+
+reg("C06", "exploration",
+    "bounded-exhaustive enumeration of symbolic expression trees against a reference dimension "
+    "calculus plus commuting-diagram replay through Quantity()",
+    "Every tree with at most n internal nodes over dimensioned symbols, applied functions, "
+    "derivatives, quantities and numbers is given to collect_expression_and_dimension; the "
+    "error verdict, the inferred dimension, value equality of the returned expression, the "
+    "diagram with Quantity() and the four Symbolic wrappers are checked on each.",
+    "vp/dims.py calculus; operands that contain a zero/infinite leaf inside a compound term, and "
+    "sums over dimensions with symbolic exponents, are left open by the property and only checked "
+    "for absence of unexpected exception types; value equality at one generic rational assignment.",
+    "DESIGN.md 3/C06")
+
 
 def build() -> dict:
     props = [json.loads(l)["id"] for l in open(os.path.join(ROOT, "properties.jsonl"))]
